@@ -273,12 +273,30 @@ func (r *fakeRegistry) Run()                                                    
 func (r *fakeRegistry) Stop()                                                      {}
 func (r *fakeRegistry) Ping() error                                                { return nil }
 
+// the pool size of the request being served; a pool rebuilt by the wrapper gets the same size
+var curMaxConns int32 = 64
+var theWrapper *dsn.StableSqlxDBWrapper
+
+func setPoolSize(n int) {
+	if n <= 0 {
+		n = 64
+	}
+	atomic.StoreInt32(&curMaxConns, int32(n))
+	if theWrapper != nil {
+		// between two requests of this process: nobody holds the wrapper's lock (a request that left it locked is
+		// reported as stopped-serving by the probes that follow it)
+		if db := theWrapper.DB; db != nil {
+			db.SetMaxOpenConns(n)
+		}
+	}
+}
+
 func openPool() *sqlx.DB {
 	db, err := sql.Open("verifscript", "")
 	if err != nil {
 		panic(err)
 	}
-	db.SetMaxOpenConns(64)
+	db.SetMaxOpenConns(int(atomic.LoadInt32(&curMaxConns)))
 	db.SetConnMaxLifetime(time.Hour)
 	return sqlx.NewDb(db, "clickhouse")
 }
@@ -289,8 +307,9 @@ func newRegistry() *fakeRegistry {
 		atomic.AddInt64(&poolRebuilds, 1)
 		return openPool()
 	}
+	theWrapper = &dsn.StableSqlxDBWrapper{DB: openPool(), GetDB: getDB, Name: "n1"}
 	return &fakeRegistry{m: &model.DataDatabasesMap{
 		Config:  &clconfig.ClokiBaseDataBase{Name: "verif", Node: "n1"},
-		Session: &fakeDB{&dsn.StableSqlxDBWrapper{DB: openPool(), GetDB: getDB, Name: "n1"}},
+		Session: &fakeDB{theWrapper},
 	}}
 }
